@@ -67,13 +67,15 @@ Proof.
     + destruct (c_insert_hint_multi pos k v (m_sel st) (m_next st) Hsel) as (Hc' & Hv & Hl & Hn).
       destruct (c_insert_hint FMulti pos k v (m_sel st) (m_next st)) as [[c' n'] rk]. cbn [fst snd] in Hc', Hv, Hl, Hn |- *.
       rewrite Hv. subst n'. split; [apply inv_set; auto|rewrite abs_set, Hl; reflexivity].
-  - (* remove(key) *)
-    rewrite (find_rank_list f) by exact Hsorted.
-    destruct (find_list k (inorder (tr (m_sel st)))) as [i|] eqn:E; cbn [fst snd]; [|auto].
-    destruct (find_list_nth _ _ _ E) as (e & Hn & _).
+  - (* remove(key): the rank the model removes is a legitimate choice for the reference *)
+    rewrite !(find_rank_list f) by exact Hsorted. rewrite has_key_find.
+    destruct (find_list k (inorder (tr (m_sel st)))) as [i|] eqn:E; cbn [fst snd]; [|destruct f; auto].
+    destruct (find_list_nth _ _ _ E) as (e & Hn & Hk & _).
     assert (Hi : (i < length (inorder (tr (m_sel st))))%nat) by (apply nth_error_Some; congruence).
     destruct (c_remove_ok f i (m_sel st) Hsel Hi) as (Hc' & Hl).
-    split; [apply inv_set; auto|rewrite abs_set, Hl; reflexivity].
+    assert (Hka : key_at k i (inorder (tr (m_sel st))) = true) by (unfold key_at; rewrite Hn; lia).
+    rewrite Hka.
+    split; [apply inv_set; auto|destruct f; rewrite abs_set, Hl; reflexivity].
   - (* remove(iterator) *)
     destruct (nth_error (inorder (tr (m_sel st))) pos) as [e|] eqn:E; cbn [fst snd].
     + assert (Hi : (pos < length (inorder (tr (m_sel st))))%nat) by (apply nth_error_Some; congruence).
@@ -309,14 +311,115 @@ Proof.
   cbv zeta. set (st := run f m_init ops).
   pose proof (run_inv f ops) as HI. fold st in HI.
   pose proof (step_refines f st (ORemKey k) HI) as Hr.
-  unfold spec_step in Hr. cbv beta iota zeta in Hr. rewrite sel_abs, next_abs in Hr.
+  destruct (inv_sel _ _ HI) as ((Hb & Hs) & Hsz).
+  unfold spec_step, choice_of in Hr. cbv beta iota zeta in Hr. rewrite sel_abs, next_abs in Hr.
+  rewrite (find_rank_list f) in Hr by exact Hs. rewrite has_key_find in Hr.
   apply (f_equal fst) in Hr. cbn [fst] in Hr. apply (f_equal s_sel) in Hr. rewrite sel_abs in Hr.
   rewrite <- Hr. clear Hr.
-  destruct (find_list k (inorder (tr (m_sel st)))) as [i|] eqn:E; cbn [fst].
-  - rewrite s_sel_set. split; [reflexivity|]. intros k'. apply count_remove_found. exact E.
-  - rewrite sel_abs. split; [reflexivity|]. intros k'. destruct (k' =? k) eqn:E2; [|reflexivity].
-    assert (k' = k) by lia. subst k'.
-    rewrite count_list_none; [reflexivity|]. apply find_list_none. exact E.
+  destruct (find_list k (inorder (tr (m_sel st)))) as [i|] eqn:E.
+  - destruct (find_list_nth _ _ _ E) as (e & Hn & Hk & _).
+    assert (Hka : key_at k i (inorder (tr (m_sel st))) = true) by (unfold key_at; rewrite Hn; lia).
+    rewrite Hka. destruct f; cbn [fst]; rewrite s_sel_set; (split; [reflexivity|]); intros k'; apply count_remove_found; exact E.
+  - assert (Hno : forall k', count_list k' (inorder (tr (m_sel st))) =
+                   if k' =? k then pred (count_list k' (inorder (tr (m_sel st)))) else count_list k' (inorder (tr (m_sel st)))).
+    { intros k'. destruct (k' =? k) eqn:E2; [|reflexivity].
+      assert (k' = k) by lia. subst k'.
+      rewrite count_list_none; [reflexivity|]. apply find_list_none. exact E. }
+    destruct f; cbn [fst]; rewrite sel_abs; (split; [reflexivity|exact Hno]).
+Qed.
+
+(* ---- the relational input of the reference (which entry of a run of equal keys remove(key) takes) -------------- *)
+Lemma key_at_cons k e l i : key_at k (S i) (e :: l) = key_at k i l.
+Proof. reflexivity. Qed.
+
+Lemma key_at_count k l : forall i, key_at k i l = true -> (0 < count_list k l)%nat.
+Proof.
+  induction l as [|e l IH]; intros i; [destruct i; discriminate|].
+  rewrite count_list_cons. destruct i as [|i].
+  - unfold key_at. cbn [nth_error]. intros H. rewrite H. lia.
+  - rewrite key_at_cons. intros H. specialize (IH i H). destruct (ekey e =? k); lia.
+Qed.
+
+Lemma key_at_lt k l i : key_at k i l = true -> (i < length l)%nat.
+Proof.
+  unfold key_at. intros H. apply nth_error_Some. destruct (nth_error l i); [discriminate|discriminate H].
+Qed.
+
+Lemma count_remove_at k k' l : forall i,
+  key_at k i l = true ->
+  count_list k' (remove_nth i l) = if k' =? k then pred (count_list k' l) else count_list k' l.
+Proof.
+  induction l as [|e l IH]; intros i; [destruct i; discriminate|].
+  destruct i as [|i].
+  - unfold key_at. cbn [nth_error remove_nth]. intros H. rewrite count_list_cons.
+    destruct (k' =? k) eqn:E2.
+    + replace (ekey e =? k') with true by lia. reflexivity.
+    + replace (ekey e =? k') with false by lia. reflexivity.
+  - rewrite key_at_cons. intros H. cbn [remove_nth]. rewrite !count_list_cons, (IH i H).
+    destruct (k' =? k) eqn:E2; [|reflexivity].
+    destruct (ekey e =? k') eqn:E3; [|reflexivity].
+    assert (k' = k) by lia. subst k'. pose proof (key_at_count k l i H). lia.
+Qed.
+
+(* Whatever entry with key k the container decides to remove, the reference accepts the decision and answers with
+   the sorted multimap that has exactly that entry less: the count of k drops by one, every other count and the
+   other container stay; when k is present, a rank that does not hold k (or no rank) is rejected; when k is
+   absent nothing happens. *)
+Lemma spec_remove_key_choice sp k c :
+  let l := s_sel sp in
+  let sp' := fst (spec_step FMulti sp (ORemKey k) c) in
+  let r := snd (spec_step FMulti sp (ORemKey k) c) in
+  sorted FMulti l ->
+  (key_at k c l = true ->
+     r = RNone /\ s_sel sp' = remove_nth c l /\ sorted FMulti (s_sel sp') /\ length (s_sel sp') = pred (length l) /\
+     s_other sp' = s_other sp /\
+     forall k', count_list k' (s_sel sp') = if k' =? k then pred (count_list k' l) else count_list k' l) /\
+  (has_key k l = true -> key_at k c l = false -> r = RBad /\ sp' = sp) /\
+  (has_key k l = false -> r = RNone /\ sp' = sp).
+Proof.
+  cbv zeta. intros Hs. unfold spec_step. cbv beta iota zeta. repeat split.
+  - destruct (has_key k (s_sel sp)) eqn:Eh; [rewrite H; reflexivity|].
+    pose proof (key_at_count _ _ _ H) as Hc. rewrite has_key_find in Eh.
+    destruct (find_list k (s_sel sp)) eqn:Ef; [discriminate|].
+    rewrite count_list_none in Hc; [lia|]. apply find_list_none. exact Ef.
+  - assert (Eh : has_key k (s_sel sp) = true).
+    { rewrite has_key_find. destruct (find_list k (s_sel sp)) eqn:Ef; [reflexivity|].
+      pose proof (key_at_count _ _ _ H) as Hc. rewrite count_list_none in Hc; [lia|]. apply find_list_none. exact Ef. }
+    rewrite Eh, H. cbn [fst]. apply s_sel_set.
+  - assert (Eh : has_key k (s_sel sp) = true).
+    { rewrite has_key_find. destruct (find_list k (s_sel sp)) eqn:Ef; [reflexivity|].
+      pose proof (key_at_count _ _ _ H) as Hc. rewrite count_list_none in Hc; [lia|]. apply find_list_none. exact Ef. }
+    rewrite Eh, H. cbn [fst]. rewrite s_sel_set. apply sorted_remove_nth. exact Hs.
+  - assert (Eh : has_key k (s_sel sp) = true).
+    { rewrite has_key_find. destruct (find_list k (s_sel sp)) eqn:Ef; [reflexivity|].
+      pose proof (key_at_count _ _ _ H) as Hc. rewrite count_list_none in Hc; [lia|]. apply find_list_none. exact Ef. }
+    rewrite Eh, H. cbn [fst]. rewrite s_sel_set. apply length_remove_nth, (key_at_lt k). exact H.
+  - assert (Eh : has_key k (s_sel sp) = true).
+    { rewrite has_key_find. destruct (find_list k (s_sel sp)) eqn:Ef; [reflexivity|].
+      pose proof (key_at_count _ _ _ H) as Hc. rewrite count_list_none in Hc; [lia|]. apply find_list_none. exact Ef. }
+    rewrite Eh, H. cbn [fst]. apply s_other_set.
+  - intros k'.
+    assert (Eh : has_key k (s_sel sp) = true).
+    { rewrite has_key_find. destruct (find_list k (s_sel sp)) eqn:Ef; [reflexivity|].
+      pose proof (key_at_count _ _ _ H) as Hc. rewrite count_list_none in Hc; [lia|]. apply find_list_none. exact Ef. }
+    rewrite Eh, H. cbn [fst]. rewrite s_sel_set. apply count_remove_at. exact H.
+  - rewrite H, H0. reflexivity.
+  - rewrite H, H0. reflexivity.
+  - rewrite H. reflexivity.
+  - rewrite H. reflexivity.
+Qed.
+
+(* the rank the model's remove(key) takes is such a choice, in every reachable state *)
+Lemma remove_key_choice_valid ops k :
+  let st := run FMulti m_init ops in
+  let l := inorder (tr (m_sel st)) in
+  has_key k l = true -> key_at k (choice_of FMulti st (ORemKey k)) l = true.
+Proof.
+  cbv zeta. set (st := run FMulti m_init ops).
+  destruct (inv_sel _ _ (run_inv FMulti ops)) as ((Hb & Hs) & Hsz). fold st in Hs.
+  unfold choice_of. rewrite (find_rank_list FMulti) by exact Hs. rewrite has_key_find.
+  destruct (find_list k (inorder (tr (m_sel st)))) as [i|] eqn:E; [|discriminate]. intros _.
+  destruct (find_list_nth _ _ _ E) as (e & Hn & Hk & _). unfold key_at. rewrite Hn. lia.
 Qed.
 
 (* ---- example histories used by the non-vacuity Examples of Properties_C01.v -------------------------------- *)
